@@ -16,7 +16,7 @@ from vlib.run import Result
 LEVEL = "fault_enumeration"
 RULE = (
     "outcome per feed: ok / timeout / EZSP error, and for protocol versions other than 4 the failing command is either "
-    "the counter read or the free-buffer read (5 outcomes). Exhaustive: every outcome sequence of length L for version 4 "
+    "the counter read or the free-buffer read, or success with the free-buffer read refused by a status (6 outcomes). Exhaustive: every outcome sequence of length L for version 4 "
     "(3^L, L = 8 quick / 10 thorough) and for versions 8 and 13 (5^L, L = 6 quick / 8 thorough; every shorter sequence "
     "is a prefix and is judged feed by feed); plus Hypothesis sequences of up to 400 feeds across the 180-feed clear "
     "period, and with the period patched to 3. Non-trivial = the sequence contains a run of at least 5 consecutive "
@@ -30,7 +30,7 @@ ASSUMPTIONS = [
 
 MAX_FAIL = 4  # tolerated consecutive failures (statement: 'more times in a row than the tolerated maximum')
 OUT4 = ["ok", "timeout", "err"]
-OUTN = ["ok", "timeout@counters", "err@counters", "timeout@buffers", "err@buffers"]
+OUTN = ["ok", "timeout@counters", "err@counters", "timeout@buffers", "err@buffers", "ok:badstatus@buffers"]
 
 
 class WdSim(simncp.SimNcp):
@@ -59,6 +59,9 @@ class WdSim(simncp.SimNcp):
         return self._wrap(self._react("counters", {"values": [4, 5, 6]}))
 
     def cmd_getValue(self, valueId):
+        if self.mode == "ok:badstatus@buffers":
+            # the keep-alive is answered, but the value read is refused with a status: neither a timeout nor an EZSP error
+            return {"status": "ERROR_INVALID_ID", "value": b""}
         return self._wrap(self._react("buffers", {"status": "OK", "value": b"\x20"}))
 
     def _wrap(self, x):
@@ -98,7 +101,7 @@ async def scenario(loop, plan, r):
                 await app._watchdog_feed()
             except (asyncio.TimeoutError, Exception) as ex:
                 raised = ex
-            failure = oc != "ok"
+            failure = not oc.startswith("ok")
             if failure:
                 consecutive += 1
             else:
@@ -187,7 +190,7 @@ def run(ctx):
     L4, LN = (8, 6) if quick else (10, 8)
     jobs = [(4, L4, [a, b]) for a in range(3) for b in range(3)]
     for v in (8, 13):
-        jobs += [(v, LN, [a, b]) for a in range(5) for b in range(5)]
+        jobs += [(v, LN, [a, b]) for a in range(len(OUTN)) for b in range(len(OUTN))]
     # split the heavy jobs further by running them through the pool
     ctx.parallel(_worker_exh, jobs)
     ctx.exhaustive[f"all outcome sequences: v4 length {L4}, v8/v13 length {LN}"] = True
